@@ -401,3 +401,23 @@ def c05_candidates(P, uni, nows=True):
     # ---- parent
     _blk(P, [], 'unknown-parent', out, prev=enc.sha256d(b'unknown parent'))
     return [c for c in out if c is not None]
+
+
+def c05_state_candidates(P, head):
+    """state dependent: at a retarget boundary, the target computed from the *head's* chain instead of the block's own
+    ancestors (differs when the period's first block is on the other side of a fork)"""
+    out = []
+    h = P.height + 1
+    if h % refmodel.PERIOD != 0 or head is P:
+        return out
+    sh = h - refmodel.PERIOD
+    if sh > head.height or sh > P.height or head.anc(sh) is P.anc(sh):
+        return out
+    ts = P.ts + 120
+    el = ts - head.anc(sh).ts
+    if el <= 0:
+        return out
+    t2 = refmodel.new_target(int.from_bytes(P.block.header.summary.target, 'big'), el).to_bytes(32, 'big')
+    if t2 != refmodel.expected_target(P, h, ts):
+        _blk(P, [], 'boundary-target-from-head-chain', out, target=t2)
+    return out
